@@ -20,7 +20,8 @@ RULE = ("(a) graph: breadth-first exploration of the COMPLETE reachable state gr
         "depth 1..3 x width 2 (quick); depth 0..7 x width 0..1, depth<=4 x width 2, depth<=3 x width 3 (thorough). (b) walks: Hypothesis lists of cycles "
         "(w_en, w_data, r_en) for depth<=17, width<=8, biased to bursts so that full, empty and wrap-around "
         "occur, with occasional domain resets in mid-stream, driven through the classic port names or through the stream "
-        "interfaces (.payload and its shortcut .p). Monitor = collections.deque + age counter (FIFO order, no loss/duplication, r_rdy => r_data is "
+        "interfaces (.payload and its shortcut .p). (c) pairs: two queues (any kinds / depths / widths, often the same) as sibling "
+        "submodules of one design, each with its own strobe sequence and its own monitor. Monitor = collections.deque + age counter (FIFO order, no loss/duplication, r_rdy => r_data is "
         "the oldest, w_rdy => held<depth, level=r_level=w_level=len, w_rdy whenever free>=1 (SyncFIFO) / >=2 "
         "(buffered), head readable within two cycles). Non-trivial transition: one on which an entry is written "
         "or read; distinct by (state, input).")
@@ -283,17 +284,93 @@ def walk_body(ctx, case):
     ctx.note(case, st_["full"] and st_["empty"], *keys, evals=len(case["steps"]))
 
 
+# ------------------------------------------------------------------------------------------ pairs
+# Two queues in sibling submodules of one design (any two kinds / depths / widths, same names inside), each driven by
+# its own strobe sequence in the same clock domain and each judged by its own monitor: state that leaks from one
+# instance into the other (class-level attributes, names colliding in the hierarchy, a shared memory) shows here only.
+@st.composite
+def pair_cases(draw, nsteps):
+    a = draw(walk_cases(nsteps)); b = draw(walk_cases(nsteps))
+    if draw(INT(0, 1)):
+        b["kind"] = a["kind"]
+        if draw(INT(0, 1)):
+            b["depth"], b["width"] = a["depth"], a["width"]
+            b["steps"] = [[s[0], draw(INT(0, (1 << a["width"]) - 1)), s[2]] for s in b["steps"]]
+    a["resets"] = b["resets"] = []
+    order = draw(INT(0, 1))
+    return {"a": a, "b": b, "order": order}
+
+
+def pair_body(ctx, case):
+    ca, cb = case["a"], case["b"]
+    with warnings.catch_warnings():
+        warnings.simplefilter("ignore")
+        m = Module()
+        cd = ClockDomain("sync")
+        m.domains += cd
+        fa = CLASSES[ca["kind"]](width=ca["width"], depth=ca["depth"])
+        fb = CLASSES[cb["kind"]](width=cb["width"], depth=cb["depth"])
+        if case["order"]:
+            m.submodules.b = fb; m.submodules.a = fa
+        else:
+            m.submodules.a = fa; m.submodules.b = fb
+        elaborated_before(case, m, every=3)
+        sim = Simulator(m)
+    fifos = [(fa, ca, Monitor(ca["kind"], ca["depth"], ca["width"])), (fb, cb, Monitor(cb["kind"], cb["depth"], cb["width"]))]
+    fail = []
+    moved = [0, 0]
+
+    async def tb(c):
+        qs = [((), 0), ((), 0)]
+        n = len(ca["steps"])
+        for i in range(n + max(ca["depth"], cb["depth"]) + 4):
+            outs = []
+            for k, (f, cs, mon) in enumerate(fifos):
+                inp = cs["steps"][i] if i < n else [0, 0, 1]
+                c.set(f.w_data, inp[1]); c.set(f.w_en, inp[0]); c.set(f.r_en, inp[2])
+            for k, (f, cs, mon) in enumerate(fifos):
+                inp = cs["steps"][i] if i < n else [0, 0, 1]
+                out = read_outputs(c, f)
+                outs.append((inp, out))
+                try:
+                    mon.check_outputs(qs[k][0], qs[k][1], out, dict(step=i, which="ab"[k], queue=list(qs[k][0]), inputs=inp, outputs=out))
+                except Mismatch as mm:
+                    fail.append(mm); return
+            c.set(cd.clk, 1); c.set(cd.clk, 0)
+            for k, (f, cs, mon) in enumerate(fifos):
+                q, age, popped, pushed = mon.edge(qs[k][0], qs[k][1], outs[k][0], outs[k][1])
+                qs[k] = (q, age)
+                moved[k] += popped + pushed
+        for k in range(2):
+            if qs[k][0]:
+                fail.append(Mismatch("entries-never-drained", which="ab"[k], left=list(qs[k][0]))); return
+    with warnings.catch_warnings():
+        warnings.simplefilter("ignore")
+        sim.add_testbench(tb)
+        sim.run()
+    if fail:
+        raise fail[0]
+    keys = ["pair:any"]
+    if ca["kind"] == cb["kind"]: keys.append("pair:same-class")
+    if (ca["kind"], ca["depth"], ca["width"]) == (cb["kind"], cb["depth"], cb["width"]): keys.append("pair:same-configuration")
+    if ca["kind"] != cb["kind"]: keys.append("pair:different-classes")
+    if moved[0] and moved[1]: keys.append("pair:both-moved")
+    ctx.note(case, bool(moved[0] and moved[1]), *keys, evals=len(ca["steps"]))
+
+
 def parts(tier):
     q = tier == "quick"
     return [
         Part("graph", "enum", cases=graph_cases, body=graph_body, exhaustive=True),
         Part("walks", "hyp", strategy=walk_cases(60 if q else 200), body=walk_body, n=60 if q else 300),
+        Part("pairs", "hyp", strategy=pair_cases(40 if q else 120), body=pair_body, n=40 if q else 200),
     ]
 
 
 REQUIRED = ["graph:SyncFIFO", "graph:SyncFIFOBuffered", "graph:full", "graph:empty_after_use", "graph:wrap",
             "graph:rw", "graph:depth0", "graph:depth3", "walk:full", "walk:empty", "walk:wrap", "walk:non-pow2-depth",
-            "walk:reset-of-a-non-empty-queue", "walk:through-stream-interfaces", "walk:through-stream-interfaces-shortcut"]
+            "walk:reset-of-a-non-empty-queue", "walk:through-stream-interfaces", "walk:through-stream-interfaces-shortcut",
+            "pair:same-class", "pair:same-configuration", "pair:different-classes", "pair:both-moved"]
 
 
 def coverage_extra(tier, counters, extra):
